@@ -129,6 +129,34 @@ def spec(tier, seed):
     store_harness(b, arr, (3, 2), "thorough")
     store_harness(b, arr, (2, 2, 2), "thorough")
 
+    # the flat mapping far beyond small shapes: the extent of the last dimension is fixed per instance at the sizes where
+    # narrower integer types would wrap (the fully symbolic version - two symbolic 17-bit multiplications - got no verdict in
+    # 600 s, also with kissat); lower bounds, the first extent and both index tuples are symbolic. abs_index does not touch the
+    # element vector, which is left empty.
+    for e1 in (7, 255, 256, 257, 32767, 32768, 65535, 65536):
+        b.add(arr, "vk_c04_abs_index_wide_2d_e%d" % e1, """
+        let lb: [i16; 2] = kani::any();
+        let e0: i32 = kani::any();
+        kani::assume(e0 >= 1 && e0 <= 200);
+        kani::assume(lb[0] as i32 + e0 - 1 <= 32767 && lb[1] as i32 + %(e1)d - 1 <= 32767);
+        let ub = [lb[0] as i32 + e0 - 1, lb[1] as i32 + %(e1)d - 1];
+        let arr = VArray { dimensions: vec![(lb[0] as i32, ub[0]), (lb[1] as i32, ub[1])], elements: Vec::new() };
+        let i: [i16; 2] = kani::any();
+        let j: [i16; 2] = kani::any();
+        let inside = |t: &[i16; 2]| t[0] as i32 >= lb[0] as i32 && t[0] as i32 <= ub[0] && t[1] as i32 >= lb[1] as i32 && t[1] as i32 <= ub[1];
+        let (in_i, in_j) = (inside(&i), inside(&j));
+        let pi = arr.abs_index(&[i[0] as i32, i[1] as i32]);
+        let pj = arr.abs_index(&[j[0] as i32, j[1] as i32]);
+        assert!(pi.is_ok() == in_i && pj.is_ok() == in_j);
+        if let (Ok(a), Ok(c)) = (&pi, &pj) {
+            assert!((*a as i64) < e0 as i64 * %(e1)d && (*c as i64) < e0 as i64 * %(e1)d);
+            assert!((*a == *c) == (i[0] == j[0] && i[1] == j[1]));      // distinct tuples, distinct elements
+        }
+        std::mem::forget(arr);
+        """ % {"e1": e1}, unwind=4, cost=60, tier="quick",
+              bounds="2-dimensional shapes (1..200) x %d with any INTEGER lower bounds; both tuples any i16" % e1,
+              functions=["rusty_variant::VArray::abs_index"])
+
     al = b.file("rusty_basic/src/interpreter/handlers/allocation.rs", "rusty_basic", "interpreter::handlers::allocation")
     for d in (1, 2, 3):
         b.add(al, "vk_c04_to_dimensions_%dd" % d, """
